@@ -1279,3 +1279,17 @@ Proof.
   split; [exact Hpe'|]. split; [|exact Hm'].
   pose proof (PW_at _ _ i0 Hpw) as Hs. rewrite Hat, Hat' in Hs. inversion Hs; subst. congruence.
 Qed.
+
+(* ------------------------------------------------------------------ 11. every intermediate step *)
+Lemma Gadm_app hashf owns rf nf : forall a b g, Gadm hashf owns rf nf (a ++ b) g -> Gadm hashf owns rf nf a g.
+Proof.
+  induction a as [|o a IH]; intros b g H; simpl in *; [exact I|].
+  destruct H as [H1 H2]. split; [exact H1|]. eapply IH; eauto.
+Qed.
+
+Theorem registry_every_step_thm : forall hashf owns rf nf done rest,
+  Gadm hashf owns rf nf (done ++ rest) gc_init ->
+  Inv hashf (Grun hashf owns rf nf done gc_init) /\ Quiet (Grun hashf owns rf nf done gc_init).
+Proof.
+  intros. apply registry_history_thm. eapply Gadm_app; eauto.
+Qed.
